@@ -645,6 +645,11 @@ struct Exporter {
           });
         }
       });
+      if (R->hasDefinition()) {
+        // which special members the compiler writes itself (not listed among the methods below)
+        J.attribute("implcopyctor", !R->hasUserDeclaredCopyConstructor() && !R->hasUserDeclaredMoveOperation());
+        J.attribute("implcopyassign", !R->hasUserDeclaredCopyAssignment() && !R->hasUserDeclaredMoveOperation());
+      }
       J.attributeArray("methods", [&] {
         for (auto *M : R->methods()) {
           if (M->isImplicit()) continue;
@@ -656,6 +661,12 @@ struct Exporter {
             J.attribute("access", (int64_t)M->getAccess());
             J.attribute("pk", paramKinds(M));
             if (M->isDeleted()) J.attribute("deleted", true);
+            if (M->isDefaulted()) J.attribute("defaulted", true);
+            if (auto *CD = dyn_cast<CXXConstructorDecl>(M)) {
+              if (CD->isCopyConstructor()) J.attribute("special", "copyctor");
+              else if (CD->isMoveConstructor()) J.attribute("special", "movector");
+            } else if (M->isCopyAssignmentOperator()) J.attribute("special", "copyassign");
+            else if (M->isMoveAssignmentOperator()) J.attribute("special", "moveassign");
             auto *ET = M->getType()->getAs<FunctionProtoType>();
             if (ET && isNoexceptExceptionSpec(ET->getExceptionSpecType())) J.attribute("noexcept", true);
           });
